@@ -2327,6 +2327,84 @@ func scCloseOver(r *h.Rng) *prog {
 	return p
 }
 
+// the this value a callee receives (11.2.3 step 6-7, 10.2.1.2.6, 15.3.4.3-5): a host function that reports its This and a
+// script function (which 10.4.3 gives an object), called by a global name, a local name, as member of a with object, as a
+// property, through call / apply / bind with an object or a primitive (never undefined / null: C09's region
+// call_undefined_this); bound functions are called twice: every call of a bound function with a primitive this makes
+// its own wrapper (identity, state left on this)
+func scThisForms(r *h.Rng) *prog {
+	p := &prog{}
+	p.v("ht", "sf", "st", "idf", "o", "b", "b2", "e")
+	p.add(m.X(m.Asg("ht", m.HostFn())),
+		m.X(m.Asg("sf", m.Fn{Body: []m.N{m.Ret(m.Typeof(m.This()))}}.Expr())),
+		// st: what it finds on this, then leaves a mark there
+		m.X(m.Asg("st", m.Fn{Vars: []string{"q"}, Body: []m.N{m.VarS("q", m.Typeof(m.Get(m.This(), "n"))), m.X(m.Set(m.This(), "n", m.Num(1))), m.Ret(m.Var("q"))}}.Expr())),
+		m.X(m.Asg("idf", m.Fn{Body: []m.N{m.Ret(m.This())}}.Expr())),
+		m.X(m.Asg("o", m.Obj(m.Prop{K: "m", V: m.Var("ht")}, m.Prop{K: "s", V: m.Var("sf")}))))
+	prims := []m.N{m.Str("tag"), m.Num(7), m.Bool(true)}
+	for k := 3 + r.Intn(5); k > 0; k-- {
+		fn := pickS(r, []string{"ht", "sf"})
+		switch r.Intn(9) {
+		case 0: // by a global name
+			p.add(lg(m.CallV(fn)))
+		case 1: // by a local name
+			p.add(lg(m.Call(m.Fn{Vars: []string{"l"}, Body: []m.N{m.VarS("l", m.Var(fn)), m.Ret(m.CallV("l"))}}.Expr())))
+		case 2: // a member of a with object, called by name
+			p.add(m.With(m.Var("o"), lg(m.CallV(pickS(r, []string{"m", "s"})))))
+		case 3: // a property
+			p.add(lg(m.MCall(m.Var("o"), pickS(r, []string{"m", "s"}))))
+		case 4: // call / apply with an object or a primitive
+			th := pickN(r, append(prims, m.Var("o")))
+			if r.Bool() {
+				p.add(lg(m.MCall(m.Var(fn), "call", th)))
+			} else {
+				p.add(lg(m.MCall(m.Var(fn), "apply", th)))
+			}
+		case 5: // bound to a primitive, called twice
+			p.add(m.X(m.Asg("b", m.MCall(m.Var(fn), "bind", pickN(r, prims)))), lg(m.CallV("b")), lg(m.CallV("b")))
+		case 6: // state left on the this of a bound function
+			p.add(m.X(m.Asg("b", m.MCall(m.Var("st"), "bind", pickN(r, prims)))), lg(m.CallV("b")), lg(m.CallV("b")),
+				lg(m.MCall(m.Var("st"), "call", m.Str("x"))), lg(m.MCall(m.Var("st"), "call", m.Str("x"))))
+		case 7: // identity of the this of a bound function
+			p.add(m.X(m.Asg("b", m.MCall(m.Var("idf"), "bind", pickN(r, prims)))), lg(m.Seq(m.CallV("b"), m.CallV("b"))), lg(m.Typeof(m.CallV("b"))),
+				m.X(m.Asg("b2", m.MCall(m.Var("idf"), "bind", m.Var("o")))), lg(m.Seq(m.CallV("b2"), m.CallV("b2"))))
+		default: // a bound function of a bound function, and bound then called as a property
+			p.add(m.X(m.Asg("b", m.MCall(m.MCall(m.Var(fn), "bind", pickN(r, prims)), "bind", m.Num(99)))), lg(m.CallV("b")),
+				m.X(m.Set(m.Var("o"), "bb", m.Var("b"))), lg(m.MCall(m.Var("o"), "bb")))
+		}
+	}
+	// inside a function: the same by a name that is global from there
+	p.decl("f", m.Fn{Name: "f", Body: []m.N{m.Ret(m.Add(m.Add(m.CallV("ht"), m.Str("|")), m.CallV("sf")))}})
+	p.add(lg(m.CallV("f")), lg(m.MCall(m.Var("o"), "m")))
+	return p
+}
+
+// Function.prototype.apply takes ToUint32 of the array-like's length (15.3.4.3 step 5): lengths at and beyond 2^32 and
+// negative lengths whose ToUint32 is small, on array-likes that are plain objects, directly, through a bound target
+// and through Function.prototype.apply.call
+func scApplyLength(r *h.Rng) *prog {
+	p := &prog{}
+	p.v("cnt", "al", "b", "e")
+	p.add(m.X(m.Asg("cnt", m.Fn{Body: []m.N{m.Ret(m.Add(m.Add(m.Get(m.Var("arguments"), "length"), m.Str(":")), m.Add(m.Typeof(m.GetE(m.Var("arguments"), m.Num(0))), m.Typeof(m.GetE(m.Var("arguments"), m.Num(2))))))}}.Expr())))
+	lens := []int{4294967296, 4294967297, 4294967298, 4294967299, -4294967295, -4294967294, -4294967296, 8589934593, 0, 1, 3}
+	for k := 2 + r.Intn(4); k > 0; k-- {
+		l := lens[r.Intn(len(lens))]
+		al := m.Obj(m.Prop{K: "length", V: m.Num(l)}, m.Prop{K: "0", V: m.Str("a")}, m.Prop{K: "1", V: m.Str("b")}, m.Prop{K: "2", V: m.Str("c")})
+		p.add(m.X(m.Asg("al", al)))
+		var call m.N
+		switch r.Intn(3) {
+		case 0:
+			call = m.MCall(m.Var("cnt"), "apply", m.Null(), m.Var("al"))
+		case 1:
+			call = m.MCall(m.MCall(m.Var("cnt"), "bind", m.Null(), m.Str("z")), "apply", m.Null(), m.Var("al"))
+		default:
+			call = m.MCall(m.Get(m.Var("cnt"), "apply"), "call", m.Var("cnt"), m.Null(), m.Var("al"))
+		}
+		p.add(m.Try([]m.N{lg(call)}, "e", []m.N{lg(m.Get(m.Var("e"), "name"))}, nil, true, false))
+	}
+	return p
+}
+
 func init() {
 	fnScenarios = append(fnScenarios, []fnScenario{
 		{"with-lookup", scWithLookup}, {"with-closure", scWithClosure}, {"with-this", scWithThis}, {"with-var", scWithVar},
@@ -2336,5 +2414,5 @@ func init() {
 		{"labels", scLabels}, {"dup-params", scDupParams}, {"order", scOrder},
 		{"label-capture", scLabelCapture}, {"eval-throw", scEvalThrow},
 		{"hoist-collide", scHoistCollide}, {"label-stale", scLabelStale}, {"host-reentry", scHostReentry},
-		{"bind-chain", scBindChain}, {"forin-init", scForInInit}, {"eval-delete", scEvalDelete}, {"args-define", scArgsDefine}, {"global-redeclare", scGlobalRedeclare}, {"cond-ref", scCondRef}, {"late-global", scLateGlobal}, {"uncaught", scUncaught}, {"fresh-literals", scFreshLiterals}, {"prim-base", scPrimBase}, {"dup-keys", scDupKeys}, {"catch-delete", scCatchDelete}, {"forin-rebind", scForInRebind}, {"fn-ctor", scFnCtor}, {"redeclare-runs", scRedeclareAcrossRuns}, {"completion", scCompletion}, {"switch", scSwitch}, {"close-over", scCloseOver}}...)
+		{"bind-chain", scBindChain}, {"forin-init", scForInInit}, {"eval-delete", scEvalDelete}, {"args-define", scArgsDefine}, {"global-redeclare", scGlobalRedeclare}, {"cond-ref", scCondRef}, {"late-global", scLateGlobal}, {"uncaught", scUncaught}, {"fresh-literals", scFreshLiterals}, {"prim-base", scPrimBase}, {"dup-keys", scDupKeys}, {"catch-delete", scCatchDelete}, {"forin-rebind", scForInRebind}, {"fn-ctor", scFnCtor}, {"redeclare-runs", scRedeclareAcrossRuns}, {"completion", scCompletion}, {"switch", scSwitch}, {"close-over", scCloseOver}, {"this-forms", scThisForms}, {"apply-length", scApplyLength}}...)
 }
